@@ -290,3 +290,97 @@ def base_axioms():
     A(FA([l], app("list_cat", l, NIL_LIST) == l, app("list_cat", l, NIL_LIST)))
     A(FA([l, x, y], app("list_cat", l, app("list_app", x, y)) == app("list_app", app("list_cat", l, x), y), app("list_cat", l, app("list_app", x, y))))
     return ax
+
+
+# ---------------------------------------------------------------------------------------------------------------------
+# canonical string concatenation: "a{}b".format(x), f"a{x}b", "a" + str(x) + "b" and "".join(["a", str(x), "b"]) are one term
+
+STRING_HEADS = ("str_cat", "py_str", "py_join", "py_replace", "re_sub", "py_repr", "m_getText", "py_lower", "py_upper", "StrC", "EXPR_TEXT", "json_dumps")
+
+
+def is_string_term(v):
+    if isinstance(v, PyC):
+        return isinstance(v.v, str)
+    if not z3.is_expr(v) or z3.is_bool(v) or not z3.is_app(v):
+        return False
+    n = v.decl().name()
+    return n in STRING_HEADS or n.startswith("py_format")
+
+
+def str_parts(v):
+    """flatten a value into concatenation parts (Python str literals and V terms)"""
+    if isinstance(v, PyC) and isinstance(v.v, str):
+        return [v.v]
+    if isinstance(v, str):
+        return [v]
+    t = asV(v)
+    if z3.is_app(t) and t.decl().name() == "str_cat":
+        return str_parts(t.arg(0)) + str_parts(t.arg(1))
+    if z3.is_app(t) and t.decl().name() == "StrC" and z3.is_int_value(t.arg(0)):
+        rev = {i: k for k, i in _STR_IDS.items()}
+        if t.arg(0).as_long() in rev:
+            return [rev[t.arg(0).as_long()]]
+    return [t]
+
+
+def strcat(parts):
+    flat = []
+    for p in parts:
+        for q in str_parts(p):
+            if isinstance(q, str):
+                if q == "":
+                    continue
+                if flat and isinstance(flat[-1], str):
+                    flat[-1] += q
+                else:
+                    flat.append(q)
+            else:
+                flat.append(q)
+    if not flat:
+        return StrV("")
+    terms = [StrV(x) if isinstance(x, str) else x for x in flat]
+    acc = terms[0]
+    for t in terms[1:]:
+        acc = app("str_cat", acc, t)
+    return acc
+
+
+def as_str_term(v):
+    """str(v) as a term, without wrapping what is already a string"""
+    if is_string_term(v):
+        return asV(v)
+    return app("py_str", asV(v))
+
+
+def format_term(fmt, args):
+    """"...{}...".format(*args): canonical concatenation when every field is a plain positional one, else an opaque py_format term"""
+    import string
+    try:
+        fields = list(string.Formatter().parse(fmt))
+    except ValueError:
+        fields = None
+    if fields is not None:
+        parts, auto, ok = [], 0, True
+        for lit, name, spec, conv in fields:
+            if lit:
+                parts.append(lit)
+            if name is None:
+                continue
+            if spec or conv not in (None, "s"):
+                ok = False
+                break
+            if name == "":
+                idx = auto
+                auto += 1
+            elif name.isdigit():
+                idx = int(name)
+            else:
+                ok = False
+                break
+            if idx >= len(args):
+                ok = False
+                break
+            parts.append(as_str_term(args[idx]))
+        if ok:
+            return strcat(parts)
+    return app("py_format%d" % len(args), asV(PyC(fmt)), *[asV(a) for a in args])
